@@ -19,6 +19,8 @@ int      rng_range(rng_t *r, int lo, int hi);      /* inclusive */
 int      rng_chance(rng_t *r, int num, int den);
 int      rng_pick(rng_t *r, const int *vals, int n);
 
+int sim_tier_scale(void);          /* 1 quick, 2 thorough (SIM_TIER): generators scale history lengths by it */
+
 /* ---------- plan ---------- */
 #define OP_MAXARGS 8
 #define OP_MAXFAULT 24
